@@ -7,15 +7,15 @@ NOTE = ("Static analysis of /repo/j1939/*.py as parsed on every run (ast; path e
         "property; the behaviour as a whole (all inputs/schedules/histories) is NOT decided. Trusted base: the engine in "
         "/verif/sa, the rule modules, the SAE tables in /verif/spec/sae.py, CPython list/dict semantics; user callbacks are external.")
 CHECKS = {
- "C01": ("R-SEG-CEIL/CONST, R-SEQ-BASE, R-KEY-ROLE, R-HASH-INJ, R-DELIVER-GUARD, R-ORDER-SEND, R-REFUSE, R-DEST-CLASS, R-DISPATCH on j1939_21.py",
+ "C01": ("R-SEG-CEIL/CONST, R-SEQ-BASE, R-KEY-ROLE, R-HASH-INJ, R-DELIVER-GUARD, R-REFRESH, R-ORDER-SEND, R-REFUSE, R-DEST-CLASS, R-DISPATCH, R-CTS-BORDER, R-GRANT-MIN, R-WINDOW-AFFINE, R-SINGLE-FRAME, R-DELIVER-ARGS, R-FORWARD-NAMES on j1939_21.py / electronic_control_unit.py",
          "path-sensitive dataflow + quotient/remainder and affine domains + known-bits over the AST", "3 C01"),
- "C02": ("FD twins of C01's rules plus in-order append, numpy chunking idiom, pool pairing/ownership on j1939_22.py",
+ "C02": ("FD twins of C01's rules plus in-order append, numpy chunking idiom, pool pairing/ownership, window bookkeeping on j1939_22.py",
          "path-sensitive dataflow + acquire/release pairing + who-may-call over the resolved call graph", "3 C02"),
  "C06": ("delivery guard, SAE timeout constants, finite deadlines, expiry shape, re-arm-or-delete, wake rule, refusal condition",
          "dominance / must-pass over enumerated paths + affine deadline forms + constant tables", "3 C06"),
  "C07": ("re-arm-or-delete on every expiry path (loops taken 0/1 times), state exhaustiveness, index bounds, job-thread subscripts, snapshots, containment, raise confinement",
          "path enumeration of the job-thread scans + thread-role reachability + interval bounds", "3 C07"),
- "C08": ("raise-on-interleave discipline on the shared session tables, snapshots, state-before-send (J1939-21)",
+ "C08": ("raise-on-interleave discipline on the shared session tables, snapshots, who deletes which table, state-before-send on both layers",
          "thread-role / ownership analysis of table operations (race-detector style, no schedule exploration)", "3 C08"),
  "C09": ("grant = min closure, responder window bookkeeping, DT typestate, hold path, window arithmetic, BAM/CMDT pacing re-arm",
          "affine forms + min-closure dataflow + typestate over enumerated paths", "3 C09"),
